@@ -46,3 +46,5 @@ D["C08"] = dict(text="module state: bip39.random is a SystemRandom bound once an
                 technique="deductive: effect-recording model of the RNG call + data-flow postcondition; AST scans for module state")
 D["C13"] = dict(text="frame conditions (modifies only self.children) on every derivation/serialisation/address function, each proved with an ARBITRARY children list at entry (results cannot depend on it); package-wide effect scan: children is never read, no attribute writes after construction, no shared-state mutation; derive_path is the fold of ckd; generate_children is the map over the interval; address generator step contract (index' = index + (sent or 1)); thread clause derived under the GIL assumption + bounded threaded histories.",
                 technique="deductive: frame/ownership conditions + whole-package effect scan + generator step contract; bounded history check for schedules")
+D["C11"] = dict(text="bech32_polymod = fold of the GF(32) step for value sequences of any length (loop invariant, generator constants computed from g(x)); checksum create/verify; checksum lemma for every prefix state; convertbits regrouping and strictness for every length, 8->5->8 round trip; segwit decode rules (same prefix, strict padding, 2..40 bytes, version <= 16, v0 => 20/32, constant per version) for every data length; encode returns None exactly for illegal (version, length); string-level rules of bech32_decode on arbitrary characters; Bech32-layer round trip; error detection by complete enumeration through linearity.",
+                technique="deductive: bit-vector VCs + loop invariant + per-length families; complete enumeration of error patterns via linearity")
